@@ -27,7 +27,7 @@ def cc_ann(T, color):
         let ek = king_sq(board, opp(%(C)s));
         assert(at(board.board, ek.0 as int, ek.1 as int) == Square::Full(Piece { kind: King, color: opp(%(C)s) }));
     }''' % {'T': T, 'C': color},
-        'expect': {'loops': [], 'returns': 4},
+        'expect': {'loops': []},
     }
 
 def push_hint(t):
@@ -121,7 +121,7 @@ GC = {
             }
         }
     }'''],
-    'expect': {'loops': [], 'returns': 0},
+    'expect': {'loops': []},
 }
 # the push hints also record castle_of for the completeness/distinctness argument
 P = ('C01', 'C02', 'C05')
@@ -133,5 +133,5 @@ def build(g):
                      ('can_castle_black_king_side', 'BlackKingSide', 'Black'), ('can_castle_black_queen_side', 'BlackQueenSide', 'Black')]:
         g.add(g.fn('move_generation', fn, cc_ann(T, c), props=('C01',)))
     g.add(g.fn('move_generation', 'can_castle', {'ret': 'res', 'requires': ['wf(board.board)', 'kings_ok(board)', 'rights_ok(board)'],
-                                                 'ensures': ['res == may_castle(board, *castling_type)'], 'expect': {'loops': [], 'returns': 0}}, props=P))
+                                                 'ensures': ['res == may_castle(board, *castling_type)'], 'expect': {'loops': []}}, props=P))
     g.add(g.fn('move_generation', 'generate_castling_moves', GC, props=P))
